@@ -247,6 +247,8 @@ func runCodec(a map[string]string) {
 	}
 	root := newRng(seed)
 	var cases []codecCase
+	var prevEnc []byte
+	var prevHex string
 	// search=1: failing-input search (direct oracle only): many more cases per type, strings around
 	// the prefix limits in every 8th case, every millisecond count 0..130000 for duration fields;
 	// only failing cases are kept
@@ -291,6 +293,12 @@ func runCodec(a map[string]string) {
 				}
 				c.HasEnc = true
 				c.Enc = hex.EncodeToString(enc)
+				// a frame handed out by an earlier Encode must keep its bytes when the codec is
+				// used again (buffers must not be shared between calls)
+				if prevEnc != nil && hex.EncodeToString(prevEnc) != prevHex {
+					c.Oracle = "the bytes returned by the previous Encode call were overwritten by this Encode call"
+				}
+				prevEnc, prevHex = enc, c.Enc
 				if len(enc) < 2 || int(enc[0])<<8|int(enc[1]) != c.Code {
 					c.Oracle = "leading type code differs from the message's GetTypeCode"
 				}
